@@ -18,7 +18,8 @@ CHECKS = {
             'caller-supplied-field kind, and all Krylov scripts over {step '
             'with/without callback, preconditioner call} x {return 0, '
             'maxiter, breakdown} up to length 4/6. Every success report is '
-            'certified against an independently assembled operator.',
+            'certified against an independently assembled operator. '
+            'Added: weak sources (amplitude 1e-13) and all histories <= 3/4 of solves on ONE Model object edited in between (certificate against the model as it is then).',
             'Trusted: mc/refmodel/fit.py (validated against amat_x by C02), '
             'SciPy sparse LU. Grids <= 8^3; value alphabets; 1e-3 slack on '
             'the certificate.', '3/C01'),
@@ -31,7 +32,8 @@ CHECKS = {
             ' s is enumerated; for each the complete matrix of the compiled '
             'amat_x is compared entry-wise with an independent sparse FIT '
             'assembly. Linearity makes the full basis a statement about all '
-            'fields on that grid/model.',
+            'fields on that grid/model. '
+            'Added: all frequency sequences <= 3/4 of VolumeModels built from one model/grid object (TensorMesh and BaseMesh), all kept alive, checked after all were built.',
             'Trusted: mc/refmodel/fit.py (150 lines, from widths only), '
             'NumPy/SciPy. Continuous inputs from finite alphabets; shapes '
             'bounded.', '3/C02'),
@@ -46,7 +48,8 @@ CHECKS = {
             'point" for all solutions at once; plus affinity, zero residual '
             'of the last relaxed block, untouched boundary sentinels, '
             'compiled-vs-source kernels, and the banded solver for all '
-            'sizes n <= 14 (40).',
+            'sizes n <= 14 (40). '
+            'The memory layout of the field data rotates over contiguous / strided / column / real-view.',
             'Trusted: reference FIT operator (validated by C02), '
             'numpy.linalg. The last block is identified up to sweep '
             'orientation (one of the corner blocks).', '3/C03'),
@@ -167,7 +170,8 @@ CHECKS = {
             'frequency/Laplace/None: component sums = electrode vector, '
             'support within touched cells, length-fraction distribution, '
             'field = vector x strength x (-s mu0), conversion round trips, '
-            'loop geometry.',
+            'loop geometry. '
+            'Added: a grid far from the origin (UTM-like) in all alphabets; one TensorMesh object used, moved in place and used again.',
             'Trusted: own Liang-Barsky clipping and trilinear weights. '
             'Position/angle alphabets.', '3/C10'),
     'C11': ('E3', 'model_checking',
@@ -238,7 +242,8 @@ CHECKS = {
             'data/gradient equal across mappings and equal to a direct '
             'solve of the reference operator, and the automatic gridding '
             'inputs and meshes equal across mappings for models that are '
-            'heterogeneous within their outer faces.',
+            'heterogeneous within their outer faces. '
+            'Added: 7 representations of the same parameters (dtypes, order, list, view).',
             'Trusted: analytic mappings, reference FIT operator.', '3/C14'),
     'C15': ('E1', 'model_checking',
             'all ordered pairs of 1-D node sets (all subsets of a lattice) '
@@ -252,7 +257,8 @@ CHECKS = {
             'mode consistency; Model.interpolate_to_grid across mappings; '
             'gradient of a real Simulation with a user-given computational '
             'grid (same shape / finer / coarser / equal) = F_ref^T x '
-            'gradient on that grid, summed over sources and frequencies.',
+            'gradient on that grid, summed over sources and frequencies. '
+            'Added: lattice pairs at UTM-like origins incl. equal-width grids shifted by one cell (maps.interpolate and Model.interpolate_to_grid); sequences of adjoint calls for grids sharing shape and origin.',
             'Trusted: mc/refmodel/volavg.py (two formulations '
             'cross-checked).', '3/C15'),
     'C16': ('E1', 'model_checking',
@@ -317,7 +323,8 @@ CHECKS = {
             'band, pass-through (bit-identical), spline / PCHIP references, '
             'zeros above fmax, monotone extrapolation, freq2time bit-'
             'identical to empymod.model.tem of the filled spectrum; '
-            'exclusivity warning; 420 setter sequences equal fresh objects.',
+            'exclusivity warning; 420 setter sequences equal fresh objects. '
+            'Added: the object is used between setter calls and returned arrays are kept; two instances created with one ftarg dict.',
             'Trusted: empymod.utils.check_time / model.tem as reference '
             'transform (per the property).', '3/C20'),
 }
